@@ -73,6 +73,16 @@ PROPS = {
         "quick": {"shards": 16, "cases": 1200, "watchdog_s": 1500, "require": {"evaluations": 40000, "order_checked": 5000, "feature:set_operation": 1000, "feature:group_by": 3000, "feature:join_using": 800, "feature:literals_identifiers": 10000}},
         "thorough": {"shards": 16, "cases": 40000, "watchdog_s": 14400, "require": {"evaluations": 1500000}},
     },
+    "C09": {
+        "technique": "runtime monitoring: DP-rewritten queries executed staged on SQLite with the random source scripted per stage (constant 1.0 on noise nodes => exactly zero noise, distinct draws elsewhere), compared with the original query on the same instance; premises (all scale factors = 1, referential integrity) are observed, not assumed",
+        "level_text": "Exploration: ~12k zero-noise executions per quick run of DP-compiled aggregation queries (ungrouped or grouped by public-valued keys, joins along the privacy-unit path and with public tables, filters, nullable columns, DISTINCT aggregates, several aggregates of one column, var/std, nested DP sub-queries). Oracle: original groups are all present, extra groups only for public values absent from the data with zero count/sum, COUNT/SUM/AVG equal within 1e-9, VAR/STD equal to the population or the sample statistic of the data.",
+        "level_note": "Trusted: SQLite + compatibility layer, the scripted random source (selftest: sqrt(-2 ln 1) cos(..) = 0), the reference statistics computed by SQL on the original data. Runs where a premise fails are counted, not judged.",
+        "rule": ("4 queries per generated DP world (3..10 users, <= 3 orders per user, <= 2 items per order, no dangling keys), parameters with generous multiplicity; "
+                 "evaluation = one zero-noise execution; distinct non-trivial = distinct (query, instance shape) judged (premises hold)."),
+        "assumptions": COMMON_ASSUME + ["an original aggregate that is NULL (empty / all-NULL group) is not compared"],
+        "quick": {"shards": 16, "cases": 350, "watchdog_s": 1500, "require": {"evaluations": 8000, "judged": 8000, "scale_factors_observed": 200000, "compared:avg": 2000, "compared:variance": 800}},
+        "thorough": {"shards": 16, "cases": 10000, "watchdog_s": 14400, "require": {"evaluations": 200000}},
+    },
     "C10": {
         "technique": "runtime monitoring: generated predicates evaluated by an independent three-valued evaluator on member rows; satisfying rows must be members of DataType::filter's result / of the join's output field types",
         "level_text": "Exploration: ~30k predicates (comparisons col/literal and col/col in both orders, int vs float, IN lists, AND/OR/NOT nests, IS NULL, boolean columns and literals, opaque sub-terms) x 8 rows each on struct types with optional columns, literals placed at the boundaries of the column ranges; plus joins of the four kinds whose ON clause is such a predicate, observed through the join schema. A satisfying row outside the narrowed type is reported with the witness.",
